@@ -164,4 +164,19 @@ answer, or a relay): no path of the request handling model ends in a panic -/
 theorem every_request_answered (mac : Str → List UInt8 → Str) (env : Env) (conn : Conn) (r : Req) :
     (handle mac env conn r).outcome ≠ .panic := handle_no_panic mac env conn r
 
+/-! ### the key keeper's sleep arithmetic after a late notify -/
+
+/-- obligation on the source: the remaining sleep is computed with `saturating_sub` -/
+theorem rest_is_saturating : Gpa.Facts.keeperRestSaturating = 1 ∧ Gpa.Facts.keeperRestPlainSub = 0 := by decide
+
+/-- the remaining sleep is total, never more than the interval, and equals the old subtraction wherever that did not underflow -/
+theorem restOfSleep_agrees (sleep slept : Nat) :
+    restOfSleep sleep slept ≤ sleep ∧ (slept ≤ sleep → restOfSleepOld sleep slept = some (restOfSleep sleep slept)) := by
+  constructor
+  · unfold restOfSleep; omega
+  · intro h; simp [restOfSleepOld, restOfSleep, h]
+
+/-- negative witness: a notify handled 10 ms after a 30 ms interval ran out made the old code panic (this ended the key keeper task) -/
+theorem old_rest_panics_when_late : restOfSleepOld 30 40 = none := by decide
+
 end Gpa.Props.C13
